@@ -105,6 +105,14 @@ def gen(ctx):
         add("cmsenc si 1 %s 01 sm3 - sm2sm3 %s -" % (name, fv(n)), "cmsenc:si:element-len")
         add("cmsenc ri 1 %s 01 sm2enc %s" % (name, fv(n)), "cmsenc:ri:element-len")
         add("cmsenc sd 1 sm3 1 %s - - %s" % (fv(n), sets[2]), "cmsenc:sd:element-len")
+    # 1..4 threads producing and opening messages at the same time (own parties, content and buffers per thread)
+    for kind in ("sign", "env"):
+        for n in (1, 2, 3, 4):
+            add("threads %s %d %d" % (kind, n, 400 if thorough else 120), "threads:%s:%d" % (kind, n))
+    # octets after the signature value inside a SignerInfo's encryptedDigest (0 = control)
+    for n in (0, 1, 2, 8, 72):
+        for fill in ((0,) if n == 0 else (0, 0x30, 0xff)):
+            add("sigtrail %d %d %s" % (n, fill, hexs(r.bytes(24))), "sigtrail:%s" % ("control" if n == 0 else "octets-after-signature"))
     # the text renderer on every kind of message; the content-type table both ways
     for kind in ("data", "signed", "env", "enc", "signenv", "kai", "names"):
         add("cmsprint %s" % kind, "cmsprint:%s" % kind)
